@@ -40,7 +40,8 @@ def catalogue():
         Spec("IMTLG", lambda m, dt, v=None: IMTLG(), pinv=True),
         Spec("AlignedMTL", lambda m, dt, v=None: AlignedMTL(pref_vector=None if v is None else vec(v, dt)), pref="pref", pinv=True),
         Spec("ConFIG", lambda m, dt, v=None: ConFIG(pref_vector=None if v is None else vec(v, dt)), weighted=False, pref="pref", pinv=True),
-        Spec("Krum", lambda m, dt, v=None: Krum(n_byzantine=1, n_selected=1), min_rows=4, ties=True),
+        Spec("Krum", lambda m, dt, v=None: Krum(n_byzantine=1, n_selected=1), min_rows=5, ties=True),   # m - f - 2 >= 2 neighbours:
+        # with a single neighbour, mutually nearest rows have exactly tied scores (index tie-breaking)
         Spec("Random", lambda m, dt, v=None: Random(), random=True),
         Spec("TrimmedMean", lambda m, dt, v=None: TrimmedMean(trim_number=1), weighted=False, gramian=False, min_rows=3),
         Spec("GradDrop", lambda m, dt, v=None: GradDrop(leak=None if v is None else vec(v, dt)), weighted=False, gramian=False,
